@@ -212,7 +212,7 @@ fn quant_alpha() -> Alpha {
         }
     }
     // fixed points: a quantified variable may reach the quantifier's body only through the iterate
-    Alpha { leaves: vec![Ast::var("a"), Ast::var("b"), Ast::var("c"), Ast::True, Ast::var("X")], not: true, bins: vec![Bin::And, Bin::Or, Bin::Implies, Bin::Xor], ite: false, quants, fps: vec![(s("X"), false), (s("X"), true)], ..Default::default() }
+    Alpha { leaves: vec![Ast::var("a"), Ast::var("b"), Ast::var("c"), Ast::True, Ast::var("X")], not: true, bins: crate::refl::ALL_BINS.to_vec(), ite: false, quants, fps: vec![(s("X"), false), (s("X"), true)], ..Default::default() }
 }
 
 fn text_sweep(ctx: &mut Ctx) {
